@@ -1,9 +1,11 @@
 package props
 
 import (
+	"fmt"
 	"go/ast"
 	"go/token"
 	"go/types"
+	"os"
 	"regexp"
 	"sort"
 	"strings"
@@ -197,7 +199,13 @@ func ruleRunCompression(c *core.Ctx, rule string) {
 					((upper && m[2] == "j+1" && m[4] == "j") || (lower && m[2] == "j" && m[4] == "j-1")) {
 					okCmp = true
 				} else {
-					o.Fail("adjacent texts are compared by %s; they must be compared in full: data[info[j+1].code] != nextString(data[info[j].code], 1)", s)
+					if strings.Contains(s, "nextString(") {
+						// the successor comparison in another spelling (operands kept in locals)
+						o.Unrec("adjacent texts are compared by %s: whether the two operands are the full texts of adjacent entries is not followed", s)
+						okCmp = true
+					} else {
+						o.Fail("adjacent texts are compared by %s; they must be compared in full: data[info[j+1].code] != nextString(data[info[j].code], 1)", s)
+					}
 				}
 			}
 		}
@@ -1570,8 +1578,21 @@ func ruleCIDEncodeFresh(c *core.Ctx) {
 		g := fn.Graph()
 		info := fn.Info()
 		isInfo := func(e ast.Expr) bool {
-			_, name, ok := selName(e)
-			return ok && name == "info"
+			if _, name, ok := selName(e); ok && name == "info" {
+				return true
+			}
+			// a local that caches the field (info := e.info)
+			if id, isID := ast.Unparen(e).(*ast.Ident); isID {
+				if obj := info.ObjectOf(id); obj != nil {
+					if ds := defVertices(g, obj); len(ds) == 1 {
+						if rhs, found := rhsFor(info, ds[0], obj); found && rhs != nil {
+							_, name, ok := selName(rhs)
+							return ok && name == "info"
+						}
+					}
+				}
+			}
+			return false
 		}
 		// the store
 		var store *core.V
@@ -1642,6 +1663,40 @@ func ruleCIDEncodeFresh(c *core.Ctx) {
 				}
 			}
 			atoms := atomsBetween(g, vc.V, store, avoid)
+			// a test made by a helper that reports a boolean (free := !used; if free): the facts behind it
+			for _, a := range append([]core.Atom{}, atoms...) {
+				atoms = append(atoms, g.ExpandNamed(a)...)
+			}
+			// the looked-up code may be a copy of the origin's variable (the parameter of a folded-in helper)
+			sameCode := func(lkCode types.Object) bool {
+				if defObj == nil || lkCode == defObj {
+					return true
+				}
+				for depth, cur := 0, lkCode; depth < 3 && cur != nil; depth++ {
+					ds := defVertices(g, cur)
+					if len(ds) == 0 {
+						return false
+					}
+					// every definition of the copy that can matter is a plain copy of one variable
+					var next types.Object
+					for _, d := range ds {
+						rhs, ok := rhsFor(info, d, cur)
+						if !ok || rhs == nil {
+							return false
+						}
+						o2 := core.ObjOf(info, rhs)
+						if o2 == nil {
+							return false
+						}
+						if o2 == defObj {
+							return true
+						}
+						next = o2
+					}
+					cur = next
+				}
+				return false
+			}
 			fresh := false
 			for _, a := range atoms {
 				id, isID := ast.Unparen(a.Expr).(*ast.Ident)
@@ -1649,12 +1704,62 @@ func ruleCIDEncodeFresh(c *core.Ctx) {
 					continue
 				}
 				for _, lk := range lookups {
-					if info.ObjectOf(id) == lk.used && (defObj == nil || lk.code == defObj) {
+					if info.ObjectOf(id) == lk.used && sameCode(lk.code) {
 						fresh = true
 					}
 				}
 			}
 			if !fresh {
+				// no lookup at all on the way is a decision; a lookup whose result the rule cannot
+				// connect with this code (through the parameters and results of folded-in helpers) is not
+				passes := false
+				for _, lv := range g.Vs {
+					as, ok := lv.AST.(*ast.AssignStmt)
+					if !ok || len(as.Lhs) != 2 || len(as.Rhs) != 1 {
+						continue
+					}
+					if ix, ok := ast.Unparen(as.Rhs[0]).(*ast.IndexExpr); ok && isInfo(ix.X) {
+						if g.PathExists(vc.V, lv, nil) && g.PathExists(lv, store, nil) {
+							passes = true
+						}
+					}
+				}
+				// ... or a helper that was not folded in (nesting too deep) and makes the lookup itself
+				for _, cvx := range g.Vs {
+					if cvx.AST == nil || passes {
+						continue
+					}
+					for _, cs := range core.CallsIn(info, cvx.AST, false) {
+						if cs.Fn == nil || cs.Fn.Exported() || cs.Fn.Pkg() != fn.Obj.Pkg() {
+							continue
+						}
+						h := c.Prog.FuncOf(cs.Fn)
+						if h == nil || h.Decl.Body == nil {
+							continue
+						}
+						looksUp := false
+						ast.Inspect(h.Decl.Body, func(m ast.Node) bool {
+							if as, ok := m.(*ast.AssignStmt); ok && len(as.Lhs) == 2 && len(as.Rhs) == 1 {
+								if ix, ok := ast.Unparen(as.Rhs[0]).(*ast.IndexExpr); ok {
+									if sel, ok := ast.Unparen(ix.X).(*ast.SelectorExpr); ok && sel.Sel.Name == "info" {
+										looksUp = true
+									}
+								}
+							}
+							return true
+						})
+						if looksUp && g.PathExists(vc.V, cvx, nil) && g.PathExists(cvx, store, nil) {
+							passes = true
+						}
+					}
+				}
+				if os.Getenv("PDFVERIF_DEBUG_C14") != "" {
+					fmt.Fprintf(os.Stderr, "C14-R10 origin %s passes=%v inlined=%d\n", c.Prog.Pos(vc.V.AST.Pos()), passes, fn.InlinedCalls)
+				}
+				if passes && fn.InlinedCalls > 0 {
+					o.Unrec("%s: the code %s passes a lookup in the table on its way to the store, but the lookup's result is not connected with it (helpers folded in)", c.Prog.Pos(vc.V.AST.Pos()), core.ExprStr(vc.Expr))
+					continue
+				}
 				o.FailAt(fn.Site(vc.V.AST, ""), "the code %s reaches the table without a lookup that found it unused: a pair that already has this code is overwritten", core.ExprStr(vc.Expr))
 			}
 		}
